@@ -21,7 +21,9 @@ fn samples_f64(rng: &mut Rng, n: usize) -> Vec<f64> {
                            // neighbours of the rounding ties and of 2^52 / 2^53 (where x + 0.5 is itself rounded)
                            0.49999999999999994, -0.49999999999999994, 0.5000000000000001, 1.4999999999999998, 2.4999999999999996, -2.4999999999999996,
                            4503599627370495.5, 4503599627370496.0, 4503599627370497.0, -4503599627370497.0, 9007199254740991.0, 9007199254740993.0, 4503599627370495.0,
-                           1e-5, -1e-5, 1e-7, 0.99, -0.99, 1.01, 50.0, 700.0, -700.0, 355.0, 1e-3];
+                           1e-5, -1e-5, 1e-7, 0.99, -0.99, 1.01, 50.0, 700.0, -700.0, 355.0, 1e-3,
+                           // arguments whose function value is tiny (logarithms next to 1, differences next to a root)
+                           1.0000000000005, 0.9999999999995, 1.000000000000002, 0.9999999999999998, 1.00000000001, 9223372036854775808.0, 4294967296.0];
     for _ in 0..n {
         let r = rng.next();
         let mag = match r % 5 { 0 => 1.0, 1 => 10.0, 2 => 150.0, 3 => 1e-3, _ => 1e4 };
@@ -147,4 +149,36 @@ pub fn replay_item(out: &mut Out, bv: &Value, rng: &mut Rng, n: usize) {
         }
     }
     if out.stats.samples.len() < 8 { out.stats.samples.push(json!({"e": e, "spelling": name, "function": func, "class": cls})); }
+}
+
+/// every ordered pair of one-argument functions of evaluator e, nested: f(g(@)) on an operand pool (for eval_complex: generic
+/// operands incl. imaginary parts beyond pi, where ln(exp z) != z) - against the reference evaluation of the two-node tree
+pub fn nested_pairs(out: &mut Out, v: &crate::vocab::Vocab, e: &str) {
+    let mut fns: Vec<(String, String)> = Vec::new();           // (canonical function, one spelling)
+    for k in v.keywords_of(e, "f1") { if !fns.iter().any(|(f, _)| *f == k.func) { fns.push((k.func.clone(), k.name.clone())); } }
+    let phs: Vec<Val> = match e {
+        "cpx" => [(1.0, 4.0), (-2.0, -5.0), (0.5, 7.0), (0.3, 0.7), (-1.2, 0.4), (2.5, -1.5), (0.05, 3.0), (1e-5, 2e-5)].iter().map(|(a, b)| Val::C(Complex::new(*a, *b))).collect(),
+        "f64" => [0.5, 2.0, -0.7, 1.5, 10.0, 1e-3, 4.2, -3.3, 0.0, 1.0000000000005].iter().map(|x| Val::F(*x)).collect(),
+        "num" => vec![Val::N(Number::Float(0.5)), Val::N(Number::Integer(2)), Val::N(Number::Float(-0.7)), Val::N(Number::Float(1.5)), Val::N(Number::Integer(10)), Val::N(Number::Float(4.2)), Val::N(Number::Integer(0)), Val::N(Number::Integer(-3))],
+        "dec" => vec![Val::D(Decimal::new(5, 1)), Val::D(Decimal::new(2, 0)), Val::D(Decimal::new(15, 1)), Val::D(Decimal::new(10, 0)), Val::D(Decimal::new(42, 1)), Val::D(Decimal::new(-7, 1))],
+        _ => vec![Val::I(2), Val::I(10), Val::I(0), Val::I(-3), Val::I(1000000), Val::I(64)],
+    };
+    let mut n = 0u64;
+    for (fo, so) in &fns {
+        for (fi, si) in &fns {
+            n += 1;
+            out.heartbeat(n);
+            out.stats.items += 1;
+            let mut asg = Asg::default();
+            asg.fns.insert(1, fo.clone());
+            asg.fns.insert(2, fi.clone());
+            let t = T::Call("f1".into(), 1, vec![T::Call("f1".into(), 2, vec![T::Ans(3)])]);
+            let text = format!("{}({}(@))", so, si);
+            let ctx = json!({"e": e, "outer": fo, "inner": fi});
+            for ph in &phs {
+                let exp = expected(e, &t, &asg, ph);
+                checked_call(out, e, &text, ph, Some(&exp), json!({"v": "accept"}), true, &ctx);
+            }
+        }
+    }
 }
